@@ -110,3 +110,39 @@ func GoodLoopWindow(arr []int64, a, b interface{}) (int64, error) {
 	}
 	return sum, nil
 }
+
+// BadCapBeforeClamp: the inverted-range test is made before the clamps, so stop-start+1 can be negative.
+func BadCapBeforeClamp(list []string, a, b interface{}) []string {
+	start, _ := a.(int64)
+	stop, _ := b.(int64)
+	length := int64(len(list))
+	if start > stop {
+		return nil
+	}
+	if start < 0 {
+		start = 0
+	}
+	if stop >= length {
+		stop = length - 1
+	}
+	out := make([]string, 0, stop-start+1)
+	return out
+}
+
+// GoodCapAfterClamp: the test is made on the clamped values.
+func GoodCapAfterClamp(list []string, a, b interface{}) []string {
+	start, _ := a.(int64)
+	stop, _ := b.(int64)
+	length := int64(len(list))
+	if start < 0 {
+		start = 0
+	}
+	if stop >= length {
+		stop = length - 1
+	}
+	if start > stop {
+		return nil
+	}
+	out := make([]string, 0, stop-start+1)
+	return out
+}
